@@ -102,6 +102,13 @@ impl Src for Q {
             self.covered.push(name);
         }
     }
+    // natively a choice never rejects: the byte is reduced modulo n (identity on Kani's counterexamples,
+    // where the drawn value already satisfies the assumption)
+    fn choice(&mut self, n: u8) -> u8 { self.take::<1>()[0] % n }
+    fn range_usize(&mut self, lo: usize, hi: usize) -> usize {
+        let c = if self.palette { self.take::<1>()[0] as usize } else { usize::from_le_bytes(self.take()) };
+        lo + c % (hi - lo + 1)
+    }
     fn u8(&mut self) -> u8 { self.take::<1>()[0] }
     fn bool(&mut self) -> bool { self.take::<1>()[0] & 1 == 1 }
     fn u16(&mut self) -> u16 { u16::from_le_bytes(self.take()) }
